@@ -110,6 +110,19 @@ def t_noise(rnd, files):
     return out, "noise"
 
 
+def t_crlf(rnd, files):
+    """Windows line endings, tabs for indentation, trailing blanks, an inner attribute on top: whitespace-level noise only"""
+    out = {}
+    for p, items in files.items():
+        new = []
+        for k, it in enumerate(items):
+            src = it.src.replace("\n    ", "\n\t") if rnd.random() < 0.5 else it.src
+            src = src.replace("\n", " \r\n") if rnd.random() < 0.8 else src.replace("\n", "\r\n")
+            new.append(Item(it.kind, it.name, src))
+        out[p] = new
+    return out, "noise"
+
+
 def t_decoys(rnd, files):
     """non-command functions and non-serde items — must not change anything"""
     out = {p: list(items) for p, items in files.items()}
@@ -176,4 +189,4 @@ def t_rename_files(rnd, files):
     return out, "order"
 
 
-TRANSFORMS = [t_noise, t_decoys, t_reorder, t_move, t_split, t_merge, t_rename_files]
+TRANSFORMS = [t_noise, t_decoys, t_reorder, t_move, t_split, t_merge, t_rename_files, t_crlf]
